@@ -876,6 +876,15 @@ func (c *VCtx) translateCall(sc *Scope, x *ECall) Val {
 		return Select(h, c.fnID(id.Name))
 	case "datalen":
 		return c.dataLen(arg(0))
+	case "ginvs":
+		// ginvs(): the global invariants of the package, in the current state (for loop invariants)
+		var parts []*Term
+		for _, g := range c.globalClauses() {
+			if !g.trans && g.pkg == sc.pkg {
+				parts = append(parts, c.translateBool(c.globalScope(g.pkg, st, nil), g.cl.E))
+			}
+		}
+		return And(parts...)
 	case "ctxparent":
 		// ctxparent(c): the context c was derived from (context.WithCancel)
 		return c.ctxParent(arg(0))
